@@ -207,7 +207,7 @@ impl MemoryStore {
         let can_insert_new_key = self.provider_keys.len() < self.config.max_provider_keys;
 
         match self.provider_keys.entry(provider_record.key.clone()) {
-            Entry::Vacant(entry) =>
+            Entry::Vacant(entry) => {
                 if can_insert_new_key {
                     entry.insert(vec![provider_record]);
 
@@ -220,7 +220,8 @@ impl MemoryStore {
                     );
 
                     false
-                },
+                }
+            }
             Entry::Occupied(mut entry) => {
                 let providers = entry.get_mut();
 
